@@ -8,7 +8,7 @@ from ..errors import AnalysisError
 from ..px import OK, PX, RAISE, Closure, Outcomes
 from ..pxv import Obj, Sym
 from ..te import TypeRef
-from .util import self_obj, text
+from .util import same_class, self_obj, text
 
 TH = "bellows.thread"
 
@@ -22,7 +22,7 @@ def fetch_wrapper(ctx, callable_):
     repo = ctx.repo
     f = repo.func(f"{TH}:ThreadsafeProxy.__getattr__")
     cls = repo.cls(TH, "ThreadsafeProxy")
-    px = PX(repo, models=[("callable", lambda px_, t, a, k, fr: callable_)], inline=lambda g, aw: False)
+    px = PX(repo, models=[("callable", lambda px_, t, a, k, fr: callable_)], inline=same_class())
     owner = loop_obj(1)
     target = Obj(TypeRef("Target"), {"method": Sym("func")}, tag="target")
 
@@ -68,7 +68,8 @@ def r20_1(ctx):
                               ("*.is_closed", lambda px_, t, a, k, fr: closed),
                               ("asyncio.iscoroutinefunction", lambda px_, t, a, k, fr: coro), ("inspect.iscoroutinefunction", lambda px_, t, a, k, fr: coro),
                               ("func", lambda px_, t, a, k, fr: Sym("coroutine") if coro else (None if result is None else Obj(TypeRef("object"), {}, tag="result")))]
-                    px = PX(repo, models=models, inline=lambda g, aw: False)
+                    px = PX(repo, models=models, inline=same_class())
+                    px.inline.root = f
 
                     def entry():
                         return px.call_function(wrapper, None, [Sym("a1")], {"kw": Sym("k1")}, None)
@@ -191,7 +192,7 @@ def r20_7(ctx):
         ok = "return_exceptions" in kw and isinstance(kw["return_exceptions"], ast.Constant) and kw["return_exceptions"].value is True
         ctx.require(ok, "force_stop:gather", "the gather that gates loop.stop() is not created with return_exceptions=True: the loop stops when the first task "
                     "ends cancelled, not when all have finished", func=f, node=g)
-    px = PX(repo, inline=lambda g_, aw: False)
+    px = PX(repo, inline=same_class())
     for has_loop in (False, True):
         for p in px.explore(f, lambda: (self_obj(repo.cls(TH, "EventLoopThread"), {"loop": Obj(TypeRef("Loop"), {}, tag="tloop") if has_loop else None}), {})):
             cs = [e for e in p.events if e.kind == "call"]
